@@ -676,6 +676,7 @@ private:
 
     // url record
     void move_record(url& other) UPA_NOEXCEPT_17;
+    void reset_record() noexcept;
 
     // search params
     void clear_search_params() noexcept;
@@ -1076,6 +1077,8 @@ inline url::url(url&& other) noexcept
     , search_params_ptr_(std::move(other.search_params_ptr_))
 {
     search_params_ptr_.set_url_ptr(this);
+    // leave the moved-from URL record empty (and not valid)
+    other.reset_record();
 }
 
 inline url& url::operator=(url&& other) UPA_NOEXCEPT_17 {
@@ -1112,6 +1115,17 @@ inline void url::move_record(url& other) UPA_NOEXCEPT_17 {
     scheme_inf_ = other.scheme_inf_;
     flags_ = other.flags_;
     path_segment_count_ = other.path_segment_count_;
+    // leave the moved-from URL record empty (and not valid)
+    if (std::addressof(other) != this)
+        other.reset_record();
+}
+
+inline void url::reset_record() noexcept {
+    norm_url_.clear();
+    part_end_.fill(0);
+    scheme_inf_ = nullptr;
+    flags_ = INITIAL_FLAGS;
+    path_segment_count_ = 0;
 }
 
 // url getters
